@@ -39,7 +39,7 @@ Qed.
 
 Definition consumed (now : N) (x : mst) : mst :=
   {| active := false; inc := inc x + 1; bud := bud x; shut := None; nw := nw_bump now (nw x);
-     timers := []; ready := []; tfin := tfin x; catchf := catchf x |}.
+     timers := []; ready := []; hnd := hnd x; catchf := catchf x |}.
 
 Lemma buf_process_mod c now i w :
   w_mod (fst (buf_process c now i w)) i = match shut (w_mod w i) with Some _ => consumed now (w_mod w i) | None => w_mod w i end.
@@ -154,7 +154,7 @@ Proof.
   wsimpl. rewrite !N.eqb_refl. wsimpl. rewrite vr. cbn [app fold_left catch fst snd x_w].
   split; [|reflexivity].
   constructor; cbn [on_w say x_w w_buf w_mod set_mod]; rewrite ?N.eqb_refl; cbn [w_mod set_mod]; rewrite ?N.eqb_refl;
-    cbn [timers nw inc bud tfin catchf ready shut set_ready]; try assumption; try reflexivity.
+    cbn [timers nw inc bud hnd catchf ready shut set_ready]; try assumption; try reflexivity.
   intros j Hj. pose proof (va j Hj) as Hv. apply N.eqb_neq in Hj. rewrite !Hj. exact Hv.
 Qed.
 
